@@ -9,6 +9,8 @@ def g_ty(t):
         (k, v), = t.items()
         if k == "Array":
             sz = v.get("size")
+            if sz is not None and type(sz) is not int:
+                sz = -1          # a size that is not a plain JSON integer (true, 2.0, an object, a string) is not a size
             return f"(TyArray {g_ty(v['inner_type'])} {'None' if sz is None else '(Some ' + gz(sz) + ')'})"
         if k == "Tuple":
             return f"(TyTuple {g_ty(v['left_type'])} {g_ty(v['right_type'])})"
